@@ -1049,7 +1049,8 @@ func BinaryExpr(query *Query, current Map, expr *sqlparser.BinaryExpr, opts ...E
 		}
 	case sqlparser.IntDivOp:
 		{
-			rs := float64(int64(*leftValue) / int64(*rightValue))
+			// the quotient of the doubles, truncated: 9 DIV 2.5 is 3
+			rs := math.Trunc(*leftValue / *rightValue)
 			return &rs, nil
 		}
 	case sqlparser.ModOp:
